@@ -87,6 +87,8 @@ fn never() -> bool {
 
 #[derive(Clone)]
 pub struct Program {
+    /// "memc": through BinaryHandler / MemcStore; "cache": directly on the Cache trait object
+    pub layer: String,
     pub name: String,
     pub kind: String,  // property the program belongs to: "C03" | "C04" | "C14" | "C16"
     pub init: String,  // "absent" | "present" | "expired"
@@ -131,6 +133,42 @@ fn exec_cmd(handler: &BinaryHandler, limit: u32, c: &Cmd, cas: u64) -> (Vec<Valu
     }
 }
 
+/// The same commands issued directly against the `Cache` trait object (MemoryStore / RandomPolicy), below
+/// MemcStore and its key lock: the store engine has to be atomic on its own (C03 is anchored there).  The
+/// results are put into the shape of response frames (status, CAS, value, flags) - a conversion, no judgement.
+fn exec_cmd_cache(cache: &Arc<dyn memcrs::cache::cache::Cache + Send + Sync>, c: &Cmd, cas: u64) -> (Vec<Value>, bool) {
+    use memcrs::cache::cache::{CacheMetaData, Record};
+    let key = bytes::Bytes::from(c.key.clone());
+    let frame = |st: u16, rcas: u64, v: &[u8], flags: Option<u32>| -> Value {
+        let el = if flags.is_some() { 4 } else { 0 };
+        let x = flags.map(|f| hex(&f.to_be_bytes())).unwrap_or_default();
+        json!({"magic": 129, "op": crate::proto::opcode_of(&c.op, c.q, c.gk), "kl": 0, "el": el, "dt": 0, "st": st,
+            "bl": el + v.len(), "al": el + v.len(), "opq": c.opaque.to_string(), "cas": rcas.to_string(), "x": x, "key": "",
+            "v": hex(v), "f": flags.map(|f| f.to_string()).unwrap_or_default(), "n": "", "short": 0, "raw": ""})
+    };
+    let res = catch_unwind(AssertUnwindSafe(|| match c.op.as_str() {
+        "get" => match cache.get(&key) {
+            Ok(rec) => {
+                let (_ts, rcas, flags, _ttl) = rec.verif_parts();
+                vec![frame(0, rcas, rec.verif_value(), Some(flags))]
+            }
+            Err(e) => vec![frame(e as u16, 0, b"error", None)],
+        },
+        "set" => match cache.set(key.clone(), Record::new(bytes::Bytes::from(c.val.clone()), cas, c.flags, c.ttl)) {
+            Ok(st) => vec![frame(0, st.cas, b"", None)],
+            Err(e) => vec![frame(e as u16, 0, b"error", None)],
+        },
+        _ => match cache.delete(key.clone(), CacheMetaData::new(cas, 0, 0)) {
+            Ok(_) => vec![frame(0, 0, b"", None)],
+            Err(e) => vec![frame(e as u16, 0, b"error", None)],
+        },
+    }));
+    match res {
+        Ok(r) => (r, false),
+        Err(_) => (Vec::new(), true),
+    }
+}
+
 fn lit(c: &CasSpec) -> u64 {
     match c {
         CasSpec::Lit(x) => *x,
@@ -170,10 +208,11 @@ pub fn run_sched(prog: &Program, forced: &[usize], order: Option<&[usize]>, rng:
             events.push(ev);
         }
     }
-    let (store, mem, timer_now) = {
+    let (store, mem, timer_now, cache) = {
         let s = sut.lock().unwrap();
-        (s.store.clone(), s.mem.clone(), s.timer.now.load(Ordering::SeqCst))
+        (s.store.clone(), s.mem.clone(), s.timer.now.load(Ordering::SeqCst), s.cache.clone())
     };
+    let on_cache = prog.layer == "cache";
     let n = prog.clients.len();
     let (tx, rx) = channel::<Msg>();
     let mut ctls: Vec<Sender<Ctl>> = Vec::new();
@@ -183,6 +222,7 @@ pub fn run_sched(prog: &Program, forced: &[usize], order: Option<&[usize]>, rng:
         let tx2 = tx.clone();
         let cmds = cmds.clone();
         let store2 = store.clone();
+        let cache2 = cache.clone();
         std::thread::spawn(move || {
             WORKER.with(|x| *x.borrow_mut() = Some(WorkerCtx { id: w, tx: tx2.clone(), rx: ctx_rx }));
             let handler = BinaryHandler::new(store2);
@@ -192,7 +232,7 @@ pub fn run_sched(prog: &Program, forced: &[usize], order: Option<&[usize]>, rng:
                 let cas = lit(&c.cas);
                 let fr = frame_of(c, cas);
                 let _ = tx2.send(Msg::Invoke { w, ev: cmd_event(c, cas, &fr) });
-                let (r, panicked) = exec_cmd(&handler, 1 << 20, c, cas);
+                let (r, panicked) = if on_cache { exec_cmd_cache(&cache2, c, cas) } else { exec_cmd(&handler, 1 << 20, c, cas) };
                 let _ = tx2.send(Msg::Return { w, r, panicked });
             }
             let _ = tx2.send(Msg::Done { w });
@@ -572,4 +612,66 @@ pub fn stress_round(prog: &Program, out: &mut dyn Write, id: usize, round: usize
         writeln!(out, "{}", e).unwrap();
     }
     true
+}
+
+/// OS-thread hammer (C16): `threads` free-running threads issue `ops` commands each (sets on their own keys,
+/// every few commands one on a shared key, a delete, a get), then one more thread flushes.  Only completion is
+/// judged: the watchdog allows `secs` seconds.
+pub fn hammer(threads: usize, ops: usize, secs: u64, policy: &str, mem_limit: u64, out: &mut dyn Write, id: usize) -> bool {
+    let sut = Sut::new(policy, mem_limit, 1 << 20);
+    let store = sut.store.clone();
+    let done = Arc::new(std::sync::atomic::AtomicUsize::new(0));
+    let mut handles = Vec::new();
+    for w in 0..threads {
+        let store2 = store.clone();
+        let done = done.clone();
+        handles.push(std::thread::spawn(move || {
+            let handler = BinaryHandler::new(store2);
+            for i in 0..ops {
+                let key = if i % 7 == 3 { b"shared".to_vec() } else { format!("h{}-{}", w, i % 50).into_bytes() };
+                let op = match i % 11 { 5 => "delete", 8 => "get", 9 => "append", _ => "set" };
+                let c = Cmd { op: op.into(), q: false, gk: false, key, val: vec![b'v'; 10 + (i % 40)], flags: 1, ttl: 0,
+                    cas: CasSpec::Lit(0), opaque: i as u32, delta: 1, initial: 0 };
+                let _ = exec_cmd(&handler, 1 << 20, &c, 0);
+            }
+            done.fetch_add(1, Ordering::SeqCst);
+        }));
+    }
+    let t0 = std::time::Instant::now();
+    let mut ok = false;
+    while t0.elapsed() < Duration::from_secs(secs) {
+        if done.load(Ordering::SeqCst) == threads {
+            ok = true;
+            break;
+        }
+        std::thread::sleep(Duration::from_millis(5));
+    }
+    let mut flushed = false;
+    if ok {
+        // a flush from one more client must return as well
+        let store3 = store.clone();
+        let fdone = Arc::new(std::sync::atomic::AtomicBool::new(false));
+        let fd = fdone.clone();
+        std::thread::spawn(move || {
+            let handler = BinaryHandler::new(store3);
+            let c = Cmd { op: "flush".into(), q: false, gk: false, key: vec![], val: vec![], flags: 0, ttl: 0, cas: CasSpec::Lit(0), opaque: 1, delta: 0, initial: 0 };
+            let _ = exec_cmd(&handler, 1 << 20, &c, 0);
+            fd.store(true, Ordering::SeqCst);
+        });
+        let t1 = std::time::Instant::now();
+        while t1.elapsed() < Duration::from_secs(5) {
+            if fdone.load(Ordering::SeqCst) {
+                flushed = true;
+                break;
+            }
+            std::thread::sleep(Duration::from_millis(2));
+        }
+    }
+    let outcome = if ok && flushed { "Complete" } else { "Hang" };
+    writeln!(out, "{}", json!({"e": "crun", "prog": id, "run": 1, "name": format!("hammer-{}x{}", threads, ops), "kind": "C16", "init": "absent",
+        "policy": "random", "L": 1 << 30, "slack": 0, "keys": [], "sched": []})).unwrap();
+    let usage = if outcome == "Complete" { sut.cache.memory_usage() } else { 0 };
+    writeln!(out, "{}", json!({"e": "final", "outcome": outcome, "steps": threads * ops, "sched": [], "parked": [],
+        "bytes": usage, "usage": usage.to_string(), "gets": [], "phys": [], "finished_threads": done.load(Ordering::SeqCst)})).unwrap();
+    outcome == "Complete"
 }
